@@ -32,11 +32,19 @@ def aob(c):
     nm = c["name"]
     names = {"col4": True, "col5": 5, "interval": False, "default": 4, "none": None}[nm]
     rows = []
-    for i, r in enumerate(b.average_over_bed(c["bed"], names=names, stats="all"), 1):
+    # the statistics either as the named tuple ("all") or as an explicit list of the seven names (a plain tuple, in that order)
+    aslist = c.get("statslist", 0)
+    fields = ["size", "bases", "sum", "mean0", "mean", "min", "max"]
+    import collections
+    T = collections.namedtuple("T", fields)
+    for i, r in enumerate(b.average_over_bed(c["bed"], names=names, stats=(fields if aslist else "all")), 1):
         if names is None:
             name, st = i, r
         else:
             label, st = r
+        if aslist:
+            st = T(*st)
+        if names is not None:
             reg = c["regions"][i - 1]
             want = {"col4": "r%d" % i, "default": "r%d" % i, "col5": "x%d" % i, "interval": "%s:%d-%d" % (c["chroms"][reg[0] - 1], reg[1], reg[2])}[nm]
             name = i if label == want else 0
